@@ -63,6 +63,7 @@ func Main() {
 		c.Verb = *verb
 		if *work != "" {
 			c.OpenProgress(filepath.Join(*work, fmt.Sprintf("b%d.progress", *batch)))
+			c.ResultPath = filepath.Join(*work, fmt.Sprintf("b%d.json", *batch))
 		}
 		if RaceEnabled {
 			c.Count("race_detector_active_batches", 1)
@@ -163,7 +164,7 @@ func runParent(ch Check, tier string, seed int64) int {
 	if par > nb {
 		par = nb
 	}
-	batchTimeout := 20 * time.Minute
+	batchTimeout := 8 * time.Minute
 	if tier == "thorough" {
 		batchTimeout = 90 * time.Minute
 	}
